@@ -98,33 +98,41 @@ LicEffect(payer, c, amt, m) ==
   /\ bal' = [bal EXCEPT ![payer] = @ - amt * Unit]
   /\ escrow' = escrow + amt * Unit
 
+AddLicenseWhy(who, as, c, amt) == IF who # as THEN "err" ELSE LicWhy(as, c, amt)
+AddLicenseEff(w, as, c, amt, m) ==
+  IF w = "ok" THEN LicEffect(as, c, amt, m) /\ UNCHANGED <<vest, clients, grants, gifts>>
+              ELSE UNCHANGED fundv
 AddLicense(who, as, c, amt, m) ==
-  LET w == IF who # as THEN "err" ELSE LicWhy(as, c, amt) IN
-  /\ IF w = "ok" THEN LicEffect(as, c, amt, m) /\ UNCHANGED <<vest, clients, grants, gifts>>
-                 ELSE UNCHANGED fundv
+  LET w == AddLicenseWhy(who, as, c, amt) IN
+  /\ AddLicenseEff(w, as, c, amt, m)
   /\ UNCHANGED <<cfgv, now>>
   /\ Done(Rec("AddLicense", who, as, c, amt, m, 0, 0, 0, ""), w)
 
 (* a signer without an account is rejected by the ante chain; creator # signer likewise *)
 SignWhy(who, as) == IF ~HasAccount(who) THEN "err" ELSE IF who # as THEN "err" ELSE "ok"
 
+RegisterWhy(who, as) == IF SignWhy(who, as) # "ok" THEN "err" ELSE IF as \notin DOMAIN lic THEN "nolicense" ELSE "ok"
+\* t0, t1: start and end of the vesting window (block time, block time + the licence's months)
+RegisterEff(w, as, t0, t1) ==
+  IF w = "ok"
+  THEN LET l == lic[as] IN
+       /\ acct' = [acct EXCEPT ![as] = "vesting"]
+       /\ vest' = Ext(vest, as, [start |-> t0, end |-> t1, orig |-> l.amt])
+       /\ escrow' = escrow - l.amt
+       /\ bal' = [bal EXCEPT ![as] = @ + l.amt]
+       /\ lic' = Drop(lic, as)
+       /\ clients' = clients \cup {as}
+       /\ UNCHANGED <<grants, gifts>>
+  ELSE UNCHANGED fundv
 Register(who, as) ==
-  LET w == IF SignWhy(who, as) # "ok" THEN "err" ELSE IF as \notin DOMAIN lic THEN "nolicense" ELSE "ok" IN
-  /\ IF w = "ok"
-     THEN LET l == lic[as] IN
-          /\ acct' = [acct EXCEPT ![as] = "vesting"]
-          /\ vest' = Ext(vest, as, [start |-> now, end |-> now + Period(l.months), orig |-> l.amt])
-          /\ escrow' = escrow - l.amt
-          /\ bal' = [bal EXCEPT ![as] = @ + l.amt]
-          /\ lic' = Drop(lic, as)
-          /\ clients' = clients \cup {as}
-          /\ UNCHANGED <<grants, gifts>>
-     ELSE UNCHANGED fundv
+  LET w == RegisterWhy(who, as) IN
+  /\ RegisterEff(w, as, now, now + (IF w = "ok" THEN Period(lic[as].months) ELSE 0))
   /\ UNCHANGED <<cfgv, now>>
   /\ Done(Rec("Register", who, as, 0, 0, 0, 0, 0, 0, ""), w)
 
+AuthWhy(who, as) == IF SignWhy(who, as) # "ok" THEN "err" ELSE IF as \notin clients THEN "notfound" ELSE "ok"
 Auth(who, as) ==
-  LET w == IF SignWhy(who, as) # "ok" THEN "err" ELSE IF as \notin clients THEN "notfound" ELSE "ok" IN
+  LET w == AuthWhy(who, as) IN
   /\ UNCHANGED svars
   /\ Done(Rec("Auth", who, as, 0, 0, 0, 0, 0, 0, ""), w)
 
@@ -142,12 +150,14 @@ SaleWhy(ch, k, c, amt) ==
   ELSE IF c \in grants THEN "granted"
   ELSE "ok"
 
+SaleEff(w, c, amt) ==
+  IF w = "ok" THEN /\ LicEffect(Funder(amt), c, amt, SaleMonths)
+                   /\ grants' = grants \cup {c}
+                   /\ UNCHANGED <<vest, clients, gifts>>
+              ELSE UNCHANGED fundv
 Sale(ch, k, c, amt) ==
   LET w == SaleWhy(ch, k, c, amt) IN
-  /\ IF w = "ok" THEN /\ LicEffect(Funder(amt), c, amt, SaleMonths)
-                      /\ grants' = grants \cup {c}
-                      /\ UNCHANGED <<vest, clients, gifts>>
-                 ELSE UNCHANGED fundv
+  /\ SaleEff(w, c, amt)
   /\ UNCHANGED <<cfgv, now>>
   /\ Done(Rec("Sale", 0, 0, c, amt, 0, ch, k, 0, ""), w)
 
@@ -159,11 +169,14 @@ SetFeegranter == /\ feegr' = TRUE /\ UNCHANGED <<fundv, funders, sale, now>>
 SetSale(ch, k) == /\ sale' = [x \in SaleChains |-> IF x = ch THEN k ELSE 0] /\ UNCHANGED <<fundv, funders, feegr, now>>
                   /\ Done(Rec("SetSale", 0, 0, 0, 0, 0, ch, k, 0, ""), "ok")
 
+GiftWhy(who, amt, via) == IF via = "tx" THEN "blocked" ELSE IF bal[who] < amt * Unit THEN "funds" ELSE "ok"
+GiftEff(w, who, amt) ==
+  IF w = "ok" THEN /\ bal' = [bal EXCEPT ![who] = @ - amt * Unit] /\ escrow' = escrow + amt * Unit /\ gifts' = gifts + amt * Unit
+                   /\ UNCHANGED <<lic, acct, vest, clients, grants>>
+              ELSE UNCHANGED fundv
 Gift(who, amt, via) ==
-  LET w == IF via = "tx" THEN "blocked" ELSE IF bal[who] < amt * Unit THEN "funds" ELSE "ok" IN
-  /\ IF w = "ok" THEN /\ bal' = [bal EXCEPT ![who] = @ - amt * Unit] /\ escrow' = escrow + amt * Unit /\ gifts' = gifts + amt * Unit
-                      /\ UNCHANGED <<lic, acct, vest, clients, grants>>
-                 ELSE UNCHANGED fundv
+  LET w == GiftWhy(who, amt, via) IN
+  /\ GiftEff(w, who, amt)
   /\ UNCHANGED <<cfgv, now>>
   /\ Done(Rec("Gift", who, who, 0, amt, 0, 0, 0, 0, via), w)
 
@@ -233,14 +246,17 @@ ActivateOnceBySelf ==
      /\ Ok /\ A.act = "Register" /\ A.who = c /\ A.as = c
      /\ c \in DOMAIN lic /\ c \notin DOMAIN lic' /\ c \notin DOMAIN vest
 \* activation moves exactly the licensed amount from the escrow into a continuous vesting account that starts now
-ActivationVests ==
-  /\ (Ok /\ A.act = "Register") =>
+ActivationMoves == (Ok /\ A.act = "Register") =>
         LET c == A.as IN
         /\ c \in DOMAIN lic /\ acct'[c] = "vesting" /\ c \in DOMAIN vest'
-        /\ vest'[c].orig = lic[c].amt /\ vest'[c].start = now' /\ vest'[c].end = now' + Period(lic[c].months)
+        /\ vest'[c].orig = lic[c].amt /\ vest'[c].start = now'
         /\ bal'[c] = bal[c] + lic[c].amt /\ escrow' = escrow - lic[c].amt
         /\ \A a \in DOMAIN bal \ {c} : bal'[a] = bal[a]
-  /\ \A c \in DOMAIN vest : c \in DOMAIN vest' /\ vest'[c] = vest[c]      \* a vesting schedule never changes
+ActivationEnd == (Ok /\ A.act = "Register" /\ A.as \in DOMAIN lic /\ A.as \in DOMAIN vest') =>
+        vest'[A.as].end = now' + Period(lic[A.as].months)
+\* a vesting schedule never changes, a vesting account stays one
+ScheduleFixed == \A c \in DOMAIN vest : c \in DOMAIN vest' /\ vest'[c] = vest[c]
+ActivationVests == ActivationMoves /\ ActivationEnd /\ ScheduleFixed
 \* a sale creates a licence only if contract, fee granter and funders are configured - and then from a funder's pocket
 SaleOnlyIfConfigured == (A.act = "Sale") =>
   IF Ok THEN /\ Authorised(A.ch, A.k) /\ feegr /\ Len(funders) > 0
